@@ -23,6 +23,7 @@ pub fn families_for(prop: &str) -> Vec<Family> {
         "C12" => vec![Family { name: "c12", cfg: c12_cfg, run: c12_run }],
         "C09" => vec![Family { name: "c09", cfg: c09_cfg, run: c09_run }],
         "C05" => vec![Family { name: "c05", cfg: c05_cfg, run: c05_run }],
+        "C04" => vec![Family { name: "c04", cfg: c04_cfg, run: c04_run }],
         "C03" => vec![
             Family { name: "c03_exh", cfg: c03_exh_cfg, run: c03_exh_run },
             Family { name: "c03_rand", cfg: c03_rand_cfg, run: c03_rand_run },
@@ -1275,4 +1276,149 @@ fn c05_run(case: &mut Case, rng: &mut Rng) {
         case.ctl("step");
     }
     case.ctl("simclock");
+}
+
+// ---------------------------------------------------------------------------------------------
+// C04: crash / bounce
+
+fn c04_cfg(rng: &mut Rng) -> CaseCfg {
+    let min = *rng.pick(&[0u64, 0, 1]);
+    CaseCfg {
+        tick_ms: 1,
+        hosts: rng.range(2, 3) as usize,
+        minlat_ms: min,
+        maxlat_ms: min + *rng.pick(&[0u64, 2]),
+        rng_seed: rng.next(),
+        desc: rng.chance(1, 4),
+        v6: rng.chance(1, 5),
+        ephlo: 45000,
+        ephhi: 45010,
+        ..CaseCfg::default()
+    }
+}
+
+/// A small workload on h0 (the victim) and its peers; h0 is crashed after `idx` steps of it
+/// (every step index is a crash point), left down for a while, bounced, and probed.
+fn c04_run(case: &mut Case, rng: &mut Rng) {
+    let hosts = case.cfg.hosts;
+    let lat = case.cfg.maxlat_ms + 2;
+    let workload = case.idx % 4;
+    let crash_at = (case.idx / 4) % 12;
+    let mut tr = Traffic { next_id: 1 };
+    let mut step_no = 0usize;
+    let mut crashed = false;
+    // the scripted workload, one entry per step: (host, op)
+    let mut plan: Vec<Vec<(usize, String)>> = Vec::new();
+    match workload {
+        0 => {
+            // listener with queued SYNs that are never accepted + a ticker
+            plan.push(vec![(0, "tcp_bind s1 any:80".into()), (0, "spawn_ticker".into()), (0, "udp_bind s0 any:9000".into())]);
+            plan.push(vec![(1, "tcp_connect s2 h0:80".into())]);
+            plan.push(vec![(1, "tcp_cpoll s2".into())]);
+            if hosts > 2 {
+                plan.push(vec![(2, "tcp_connect s2 h0:80".into())]);
+            }
+            for _ in 0..8 {
+                plan.push(vec![(1, "tcp_cpoll s2".into())]);
+            }
+        }
+        1 => {
+            // established stream, data flowing towards the victim which does not read it (unread data at the crash)
+            plan.push(vec![(0, "tcp_bind s1 any:80".into()), (0, "spawn_ticker".into())]);
+            plan.push(vec![(1, "tcp_connect s2 h0:80".into())]);
+            for _ in 0..3 {
+                plan.push(vec![(0, "tcp_accept s1 s2".into()), (1, "tcp_cpoll s2".into())]);
+            }
+            for k in 0..8u8 {
+                plan.push(vec![(1, format!("tcp_write s2 {}", hex(&[k, k + 1])))]);
+            }
+        }
+        2 => {
+            // established stream, the victim writes, the peer reads everything (no unread data on the victim)
+            plan.push(vec![(0, "tcp_bind s1 any:80".into())]);
+            plan.push(vec![(1, "tcp_connect s2 h0:80".into())]);
+            for _ in 0..3 {
+                plan.push(vec![(0, "tcp_accept s1 s2".into()), (1, "tcp_cpoll s2".into())]);
+            }
+            for k in 0..8u8 {
+                plan.push(vec![(0, format!("tcp_write s2 {}", hex(&[k]))), (1, "tcp_read s2 8".into())]);
+            }
+        }
+        _ => {
+            // UDP sockets, multicast membership, a second host talking to the victim
+            plan.push(vec![(0, "udp_bind s0 any:9000".into()), (0, "spawn_ticker".into()), (1, "udp_bind s0 any:9000".into())]);
+            plan.push(vec![(0, "udp_join s0 mc0 any".into()), (1, "udp_join s0 mc0 any".into())]);
+            for _ in 0..10 {
+                let id = tr.next_id;
+                tr.next_id += 1;
+                let dst = if rng.chance(1, 3) { "mc0:9000" } else { "h0:9000" };
+                plan.push(vec![(1, format!("udp_send s0 {dst} {}", hex(&[(id >> 8) as u8, id as u8]))), (0, "udp_tryrecv s0 4".into())]);
+            }
+        }
+    }
+    for ops in plan.iter() {
+        if step_no == crash_at && !crashed {
+            break;
+        }
+        for (h, op) in ops {
+            case.ctl(&format!("q h{h} {op}"));
+        }
+        case.ctl("step");
+        step_no += 1;
+    }
+    case.ctl("q h1 countof h0");
+    case.ctl("step");
+    case.ctl("crash h0");
+    crashed = true;
+    let _ = crashed;
+    // while it is down: peers keep going, others look at its tables, traffic keeps arriving
+    let down = rng.range(0, lat + 2);
+    for k in 0..down {
+        case.ctl("q h1 countof h0");
+        match workload {
+            0 => case.ctl("q h1 tcp_cpoll s2"),
+            1 | 2 => case.ctl("q h1 tcp_read s2 8"),
+            _ => {
+                let id = 500 + k as u32;
+                case.ctl(&format!("q h1 udp_send s0 h0:9000 {}", hex(&[(id >> 8) as u8, id as u8])));
+            }
+        }
+        if workload == 0 && hosts > 2 {
+            case.ctl("q h2 tcp_cpoll s2");
+        }
+        if k == 0 && rng.chance(1, 3) {
+            // a connection attempt while the host is down
+            case.ctl("q h1 tcp_connect s5 h0:80");
+        }
+        case.ctl("step");
+    }
+    if rng.chance(1, 6) {
+        case.ctl("crash h0"); // crashing a crashed host is a no-op
+    }
+    case.ctl("bounce h0");
+    // the new incarnation binds the same ports again
+    case.ctl("q h0 udp_bind s0 any:9000");
+    case.ctl("q h0 tcp_bind s1 any:80");
+    case.ctl("q h0 count");
+    case.ctl("step");
+    for _ in 0..(lat + 3) {
+        case.ctl("q h0 udp_tryrecv s0 4");
+        case.ctl("q h0 tcp_accept s1 s9");
+        match workload {
+            0 => case.ctl("q h1 tcp_cpoll s2"),
+            1 | 2 => case.ctl("q h1 tcp_read s2 8"),
+            _ => case.ctl("q h1 udp_tryrecv s0 4"),
+        }
+        case.ctl("q h1 tcp_cpoll s5");
+        case.ctl("step");
+    }
+    if rng.chance(1, 4) {
+        // bounce without a crash, and once more
+        case.ctl("bounce h0");
+        case.ctl("q h0 udp_bind s0 any:9000");
+        case.ctl("step");
+        case.ctl("q h0 count");
+        case.ctl("step");
+    }
+    case.ctl("mark done");
 }
